@@ -16,6 +16,5 @@ INVARIANT ValuesSound
 INVARIANT WordBounded
 INVARIANT OutcomeWellFormed
 INVARIANT ErrorsFromUses
-INVARIANT Progress
 INVARIANT PublishRun
-CHECK_DEADLOCK FALSE
+CHECK_DEADLOCK TRUE
